@@ -9,6 +9,7 @@ import Cog.Drv.XformDrv
 import Cog.Drv.BuilderDrv
 import Cog.Drv.SchemaStore
 import Cog.Drv.SemDrv
+import Cog.Drv.EqualsDrv
 open Cog.Drv
 
 def handle (line : String) : String :=
@@ -30,6 +31,7 @@ def handleIO (line : String) : IO String := do
   match l.splitOn " " with
   | "defschemas" :: rest => defSchemas (" ".intercalate rest)
   | "godec" :: rest => godecLine (" ".intercalate rest)
+  | "goequals" :: rest => goequalsLine (" ".intercalate rest)
   | _ => return handle line
 
 partial def loop (h : IO.FS.Stream) (out : IO.FS.Stream) : IO Unit := do
